@@ -308,10 +308,21 @@ class Micro(object):
             for cur in curs:
                 cd = cur['d']
 
+                def expand1(e):
+                    """the nodes of e, with every single-definition local replaced (once) by its initialiser: `left = end - cursor; if (size > left)` reads as `size > end - cursor`"""
+                    out = []
+                    for x in e.walk():
+                        out.append(x)
+                        if x['k'] == 'DeclRefExpr' and x.get('d') not in (cd, end_d):
+                            ini = G.local_init(f, x)
+                            if ini is not x and ini is not A.strip_casts(x):
+                                out += list(ini.walk())
+                    return out
+
                 def cmp_end(n):
-                    """relational comparison that involves both the cursor and afterEndOfField"""
-                    return n['k'] == 'BinaryOperator' and n.get('op') in ('<', '<=', '>', '>=') and any(x['k'] == 'DeclRefExpr' and x.get('d') == cd for x in n.walk()) \
-                        and any(x['k'] == 'DeclRefExpr' and x.get('d') == end_d for x in n.walk())
+                    """relational comparison that involves both the cursor and afterEndOfField (directly, or through a named local holding their difference)"""
+                    return n['k'] == 'BinaryOperator' and n.get('op') in ('<', '<=', '>', '>=') and any(x['k'] == 'DeclRefExpr' and x.get('d') == cd for x in expand1(n)) \
+                        and any(x['k'] == 'DeclRefExpr' and x.get('d') == end_d for x in expand1(n))
                 # (1) advances and hand-outs
                 for n in f.walk():
                     size = None
@@ -351,7 +362,7 @@ class Micro(object):
                             continue
                         # which side holds the size?  error edge must be the one on which size > remaining
                         l, r = g['ch']
-                        l_has_rem = any(x['k'] == 'DeclRefExpr' and x.get('d') == end_d for x in l.walk())
+                        l_has_rem = any(x['k'] == 'DeclRefExpr' and x.get('d') == end_d for x in expand1(l))
                         szside, op = (r, {'<': '>', '<=': '>=', '>': '<', '>=': '<='}[g['op']]) if l_has_rem else (l, g['op'])
                         szvars = set(x.get('d') for x in szside.walk() if x['k'] == 'DeclRefExpr')
                         covers = (wire and wire <= szvars) or \
